@@ -128,7 +128,7 @@ if __name__ == "__main__":
     sel = [a for a in sys.argv[1:] if not a.startswith("-")]
     js = [j for j in jobs() if not sel or any(s in j[1] for s in sel)]
     ok = n = 0
-    with ProcessPoolExecutor(min(6, os.cpu_count() or 4)) as ex:
+    with ProcessPoolExecutor(min(14, os.cpu_count() or 4)) as ex:
         for (rel, q), res in ex.map(run_one, js):
             if res is None:
                 continue
